@@ -52,6 +52,12 @@ thread_local! { static ARGC: std::cell::Cell<u32> = const { std::cell::Cell::new
 pub fn ac<T>(v: T) -> T { ARGC.with(|c| c.set(c.get() + 1)); v }
 pub fn argc() -> u32 { ARGC.with(|c| c.replace(0)) }
 
+/// counts the calls of the closures / functions passed to adapters and consumers: std's adapters are lazy and
+/// short-circuiting, and a predicate that is partial or has effects makes the number of calls observable
+thread_local! { static CC: std::cell::Cell<u32> = const { std::cell::Cell::new(0) }; }
+pub fn cc() { CC.with(|c| c.set(c.get() + 1)); }
+pub fn ccount() -> u32 { CC.with(|c| c.replace(0)) }
+
 /// counts how often a function-valued argument expression (`map(fa(hv))`) is evaluated; reported separately from the
 /// other argument expressions
 thread_local! { static FARGC: std::cell::Cell<u32> = const { std::cell::Cell::new(0) }; }
@@ -65,10 +71,10 @@ pub fn exh(a: i32, b: i32) -> std::ops::RangeInclusive<i32> { let mut r = a..=b;
 pub fn exh_model(a: i32, b: i32) -> std::ops::RangeInclusive<i32> { if a <= b { b..=b } else { a..=b } }
 
 /// function-path forms
-pub fn hv<T: H>(x: T) -> i32 { x.h().wrapping_mul(3) ^ 1 }
-pub fn hp<T: H>(x: &T) -> bool { x.h().rem_euclid(2) == 0 }
-pub fn hpv<T: H>(x: T) -> bool { x.h().rem_euclid(2) == 0 }
-pub fn hfm<T: H>(x: T) -> Option<i32> { if x.h().rem_euclid(3) == 0 { None } else { Some(x.h().wrapping_add(1)) } }
+pub fn hv<T: H>(x: T) -> i32 { cc(); x.h().wrapping_mul(3) ^ 1 }
+pub fn hp<T: H>(x: &T) -> bool { cc(); x.h().rem_euclid(2) == 0 }
+pub fn hpv<T: H>(x: T) -> bool { cc(); x.h().rem_euclid(2) == 0 }
+pub fn hfm<T: H>(x: T) -> Option<i32> { cc(); if x.h().rem_euclid(3) == 0 { None } else { Some(x.h().wrapping_add(1)) } }
 
 #[derive(Debug, Clone, Copy)]
 pub struct Inp<'a> {
@@ -398,38 +404,38 @@ def x_kind_of(desc):
 def closure(kind, ty, form, by_ref):
     """returns (konst closure text, std closure text). kind in map/pred/fm/mapt"""
     if kind == "map":
-        body = "x.h().wrapping_mul(3) ^ 1"
+        body = "{ cc(); x.h().wrapping_mul(3) ^ 1 }"
         if form == 1:
-            return "|x| -> i32 { %s }" % body, "|x| -> i32 { %s }" % body
+            return "|x| -> i32 %s" % body, "|x| -> i32 %s" % body
         if form == 2:
             return fp("hv"), fp("hv")
         if form == 3 and ty.startswith("("):
-            b = "(p, q).h().wrapping_mul(3) ^ 1"
+            b = "{ cc(); (p, q).h().wrapping_mul(3) ^ 1 }"
             return "|(p, q)| %s" % b, "|(p, q)| %s" % b
         if form == 4:
-            return "|x| (x.h().wrapping_add(1), x)", "|x| (x.h().wrapping_add(1), x)"
+            return "|x| { cc(); (x.h().wrapping_add(1), x) }", "|x| { cc(); (x.h().wrapping_add(1), x) }"
         if form == 5:
             return "|x: %s| %s" % (ty, body), "|x: %s| %s" % (ty, body)
         if form == 7:
-            body = "x.h().wrapping_mul(3) ^ w.h()"
+            body = "{ cc(); x.h().wrapping_mul(3) ^ w.h() }"
         return "|x| %s" % body, "|x| %s" % body
     if kind == "pred":
-        body = "x.h().rem_euclid(2) == 0"
+        body = "{ cc(); x.h().rem_euclid(2) == 0 }"
         if form == 7:
-            body = "(x.h() ^ w.h()).rem_euclid(2) == 0"
+            body = "{ cc(); (x.h() ^ w.h()).rem_euclid(2) == 0 }"
         if form == 1:
-            return "|x| -> bool { %s }" % body, "|x| -> bool { %s }" % body
+            return "|x| -> bool %s" % body, "|x| -> bool %s" % body
         if form == 2:
             return (fp("hp"), fp("hp")) if by_ref else (fp("hpv"), fp("hpv"))
         if form == 6:
-            body = "x.h().rem_euclid(3) != 1"
+            body = "{ cc(); x.h().rem_euclid(3) != 1 }"
         return "|x| %s" % body, "|x| %s" % body
     if kind == "fm":
-        body = "if x.h().rem_euclid(3) == 0 { None } else { Some(x.h().wrapping_add(1)) }"
+        body = "{ cc(); if x.h().rem_euclid(3) == 0 { None } else { Some(x.h().wrapping_add(1)) } }"
         if form == 2:
             return fp("hfm"), fp("hfm")
         if form == 1:
-            return "|x| -> Option<i32> { %s }" % body, "|x| -> Option<i32> { %s }" % body
+            return "|x| -> Option<i32> %s" % body, "|x| -> Option<i32> %s" % body
         return "|x| %s" % body, "|x| %s" % body
     raise ValueError(kind)
 
@@ -582,11 +588,16 @@ def render_fns(i, desc, std_only=False, _second=False):
     tbody = std_consume(schain.replace(".take(ac(inp.n0))", ".take(ac(inp.n0) + 1)"), cm) if flags["has_t"] else "String::new()"
     fwd = {"rfind": "find", "rfold": "fold", "rposition": "position"}.get(cm, cm)
     abody = std_consume(achain, fwd) if achain else "String::new()"
+    comparable = desc["src"] != "range_from_u8" and not any(a["m"] in ("take", "zip") for a in desc["adapters"])
+
     def counted(body):
         # the result string carries the number of argument-expression evaluations of this run; `w` is a variable of the
         # caller that closures of form 7 use
-        return ("let w: i32 = inp.a.wrapping_add(1000); argc(); fargc(); let r = { %s }; "
-                "format!(\"{} #argument evaluations: {}{}{}\", r, argc(), FSEP, fargc())" % body)
+        # ... and, for chains whose laziness is the same in both implementations by construction (no take: the
+        # listed finding pulls one more item; no zip), the number of closure calls
+        calls = "ccount()" if comparable else "{ ccount(); 0 }"
+        return ("let w: i32 = inp.a.wrapping_add(1000); argc(); fargc(); ccount(); let r = { %s }; "
+                "format!(\"{} #argument evaluations: {} #closure calls: {}{}{}\", r, argc(), %s, FSEP, fargc())" % (body, calls))
 
     if _second:
         return kbody
